@@ -1275,6 +1275,50 @@ bool dispatch_api(State& st, const std::string& op, const json& a, json& ret)
         ret = rawdump(a);
         return true;
     }
+    if (op == "foreign_rows")
+    {
+        // Rows in the tables this library never writes but Engine DJ does (prepare list, history, copy records), naming one of
+        // the library's tracks.  {"t": handle}
+        sqlite3* conn = lib_conn();
+        int64_t tid = st.T(a.at("t").get<std::string>()).id();
+        auto has = [&](const std::string& name) {
+            return !raw_query(conn, st.is_v2 ? "SELECT 1 FROM sqlite_master WHERE type = 'table' AND name = ?"
+                                             : "SELECT 1 FROM music.sqlite_master WHERE type = 'table' AND name = ?",
+                              json::array({json{{"t", hex_of(name)}}}))["rows"].empty();
+        };
+        json made = json::array();
+        if (st.is_v2)
+        {
+            raw_query(conn, "INSERT INTO PreparelistEntity (trackId, trackNumber) VALUES (?, (SELECT COALESCE(MAX(trackNumber), 0) + 1 FROM PreparelistEntity))",
+                      json::array({tid}));
+            made.push_back("PreparelistEntity");
+        }
+        else
+        {
+            if (has("Preparelist") && has("PreparelistTrackList"))
+            {
+                raw_query(conn, "INSERT OR IGNORE INTO Preparelist (id, title) VALUES (1, 'Prepare')");
+                raw_query(conn, "INSERT INTO PreparelistTrackList (playlistId, trackId, trackIdInOriginDatabase, databaseUuid, trackNumber) "
+                                "VALUES (1, ?, ?, 'foreign', 1)", json::array({tid, tid}));
+                made.push_back("PreparelistTrackList");
+            }
+            if (has("Historylist") && has("HistorylistTrackList"))
+            {
+                raw_query(conn, "INSERT OR IGNORE INTO Historylist (id, title) VALUES (1, 'History 1')");
+                raw_query(conn, "INSERT INTO HistorylistTrackList (historylistId, trackId, trackIdInOriginDatabase, databaseUuid, date) "
+                                "VALUES (1, ?, ?, 'foreign', 1600000000)", json::array({tid, tid}));
+                made.push_back("HistorylistTrackList");
+            }
+            if (has("CopiedTrack"))
+            {
+                raw_query(conn, "INSERT OR IGNORE INTO CopiedTrack (trackId, uuidOfSourceDatabase, idOfTrackInSourceDatabase) VALUES (?, 'foreign', 7)",
+                          json::array({tid}));
+                made.push_back("CopiedTrack");
+            }
+        }
+        ret = made;
+        return true;
+    }
     if (op == "foreign_crate")
     {
         // A 2.x crate row as another writer leaves it: inserted by SQL (the schema's own triggers link it into the
